@@ -22,6 +22,74 @@ def shape(c):
             c["res"]["ok"], c["res"].get("why", ""), k["star"] >= 0, bool(k["dstar"]), len(k["kw"]))
 
 
+def eval_part(tier, scratch, V):
+    """constant expressions (displays with starred elements, subscripts, slices, comprehensions, chained comparisons,
+    and/or/not, if-expressions, closures applied at once, isinstance, len/min/max/abs/...): PyEval.tla evaluates every
+    generated program in both modes; mode "cpython" is validated against CPython itself on EVERY program, mode "cohdl"
+    (and/or yield the truth value) is what the tracer's value is compared with."""
+    import gen_py
+    n = 1500 if tier == "quick" else 12000
+    progs = gen_py.programs(n, vlib.seed() + 1010)
+    wd = os.path.join(scratch, "pyeval")
+    os.makedirs(wd, exist_ok=True)
+    srcs = {p["id"]: gen_py.to_py(p["e"]) for p in progs}
+    envsrc = [[a, gen_py.to_py(e)] for a, e in gen_py.ENV]
+
+    def obs_one(args):
+        j, chunk = args
+        w = os.path.join(wd, f"w{j}")
+        os.makedirs(w, exist_ok=True)
+        json.dump({"env": envsrc, "programs": [{"id": p["id"], "src": srcs[p["id"]]} for p in chunk]}, open(os.path.join(w, "job.json"), "w"))
+        env = dict(os.environ, PYTHONPATH=vlib.REPO, PYTHONHASHSEED="0")
+        q = subprocess.run([vlib.VENV_PY, os.path.join(vlib.VERIF, "harness", "pyobs_c10_eval.py"), os.path.join(w, "job.json"), w, os.path.join(w, "out.json")],
+                           env=env, capture_output=True, text=True, cwd=w)
+        return {"error": q.stderr[-1200:]} if q.returncode != 0 else json.load(open(os.path.join(w, "out.json")))
+
+    cpy, tracer = {}, {}
+    with cf.ThreadPoolExecutor(vlib.NCPU) as ex:
+        for r in ex.map(obs_one, list(enumerate(vlib.shard(progs, vlib.NCPU)))):
+            if "error" in r:
+                V.machinery_error("pyobs_c10_eval: " + r["error"])
+                continue
+            cpy.update(r["cpython"])
+            tracer.update(r["tracer"])
+    envrec = [{"n": a, "e": e} for a, e in gen_py.ENV]
+    res = vlib.run_tlc_shards("MC_PyEval.tla", "MC_PyEval.cfg", [{"env": envrec, "programs": s} for s in vlib.shard(progs, vlib.NCPU)], scratch, timeout=1500)
+    stats = collections.Counter()
+    for r in res:
+        pr = r["parsed"]
+        if r["timeout"] or pr["errors"] or "programs" not in pr["stat"]:
+            V.machinery_error("MC_PyEval: " + " / ".join(pr["errors"][:3]) + r["out"][-600:])
+            continue
+        for pid, (a, b) in pr["case"].items():
+            a, b = json.loads(a), json.loads(b)
+            c, t = cpy.get(str(pid)), tracer.get(str(pid))
+            if c is None or t is None:
+                continue
+            if a["t"] == "err" and (str(a["v"]).startswith("unsupported") or str(a["v"]).startswith("spec:")):
+                stats["outside_the_specified_subset"] += 1
+                continue
+            stats["cpython_validated"] += 1
+            if a != c:
+                V.machinery_error(f"PyEval.tla disagrees with CPython on {srcs[pid]}: spec {a} cpython {c}")
+                continue
+            stats["traced"] += 1
+            if t["t"] == "rejected":
+                stats["rejected_by_tracer" if a["t"] != "err" else "raises_in_both"] += 1      # "... or is rejected with an error"
+            elif b["t"] == "err":
+                V.violation(f"constant-evaluation:value-where-cpython-raises|{srcs[pid]}: CPython raises {b['v']}, tracer {t}",
+                            {"clause": "PyEval", "source": srcs[pid], "cpython": c, "tracer": t})
+            elif t != b:
+                kind = "and-or-operand" if a != b else "value"
+                V.violation(f"constant-evaluation:{kind}|{srcs[pid]}: specified {b}, tracer {t}",
+                            {"clause": "PyEval", "source": srcs[pid], "specified": b, "cpython": c, "tracer": t})
+            else:
+                stats["agree"] += 1
+    return {"constant_expressions": n, "constant_expressions_cpython_validated": stats["cpython_validated"], "constant_expressions_traced": stats["traced"],
+            "constant_expressions_agree": stats["agree"], "constant_expressions_rejected_by_tracer": stats["rejected_by_tracer"],
+            "constant_expressions_raising_in_cpython_and_tracer": stats["raises_in_both"]}
+
+
 def run(tier):
     t0 = time.time()
     V = vlib.Verdict("C10")
@@ -105,6 +173,7 @@ def run(tier):
                     cls = "reflected-method-used-for-identical-types" if c["rel"] == "same" else \
                         "subclass-priority-ignored" if c["rel"] == "sub" else "other"
                     V.violation(f"operator-dispatch:{cls}|{f['desc']}: CPython {f['cpython']!r}, tracer {f['tracer']!r}", f)
+        ev = eval_part(tier, scratch, V)
     cov = {"states": len(cases), "transitions": len(cases), "operator_dispatch_cases": od_checked, "valid_code_rejected_by_tracer": rejected_valid, "traces_validated_against_impl": tr_checked, "evaluations": cp_checked + tr_checked,
            "distinct_nontrivial": len(by), "cpython_validated_pairs": cp_checked,
            "samples": [{"sig": cases[i]["sig"], "call": cases[i]["call"], "res": cases[i]["res"]} for i in sample[:: max(1, len(sample) // 3)][:3]],
@@ -113,6 +182,8 @@ def run(tier):
                    "a **mapping (110592 pairs); the specification's answer for EVERY pair is validated against CPython's own binder, and a "
                    "stratified sample (every distinct signature/outcome/call shape) is traced by CoHDL with constant arguments and observed "
                    "with a pyeval probe; distinct_nontrivial = distinct shapes"}
+    cov.update(ev)
+    cov["evaluations"] += ev.get("constant_expressions_cpython_validated", 0) + ev.get("constant_expressions_traced", 0)
     rc = V.finish()
     vlib.write_evidence("C10", tier, "model_checking", cov, time.time() - t0, len(V.new),
                         ["spec/CallBinding.tla transcribes Python's call-binding rules (validated against CPython on the whole enumerated space)",
